@@ -403,6 +403,13 @@ def make_ugrid(rng, *, mesh=None, winding=None, supplied=None, start_index=None,
             t['fill_value'] = 999999 if t['dtype'] != 'int16' else 9999
         if str(t['start_index']) == '1' and chance(rng, 0.3):
             t['fill_value'] = 0          # the natural "no element" number of a one-based table
+        elif t['fill_value'] >= 0 and chance(rng, 0.2):
+            # a fill value just past the numbers the table can hold (faces for edge_face / face_face, nodes for *_node,
+            # edges for face_edge): outside its own index range, possibly inside the range of another kind of element
+            target = {'face_node': mesh.nnode, 'edge_node': mesh.nnode, 'face_edge': mesh.nedge,
+                      'edge_face': mesh.nface, 'face_face': mesh.nface}[key]
+            t['fill_value'] = int(target + (1 if str(t['start_index']) == '1' else 0) + 1 + int(rng.integers(0, 3)))
+            t['fill_tight'] = True
         tables[key] = t
     # UGRID: a transposed connectivity variable is only legal when the matching *_dimension attribute is declared
     if any(tables[k]['transposed'] for k in ('edge_node', 'edge_face') if k in supplied):
